@@ -37,6 +37,8 @@ Inductive op :=
 | OSubj (c : expr * sense) | OSubjList (cs : list (expr * sense))
 | OSetLb (v : string) (b : option Q) | OSetUb (v : string) (b : option Q)
 | OReadVars
+| ORejected                       (* a call that is rejected: minimize / maximize of a non-expression, subject_to of a list holding
+                                     an invalid element - it raises before anything of the problem is touched *)
 | OSolve (m : string).
 
 (* what reaches the solver seam *)
@@ -126,6 +128,7 @@ Section Step.
     | OSubjList cs => (set_edit s (p_obj s) (p_max s) (p_cons s ++ cs), ONone)
     | OSetLb _ _ | OSetUb _ _ => (s, ONone)      (* bound edits change the store, not the problem *)
     | OReadVars => let '(V, s1) := variables_of s in (s1, OVars V)
+    | ORejected => (s, ONone)
     | OSolve m =>
         match p_obj s with
         | None => (s, ONoObjective)
